@@ -312,8 +312,10 @@ def tally(rep, case, impl_res, ans):
         rep.count('single_channel_dataset')
     if case.get('spec'):
         rep.count('positions_dtype:' + (case['spec'].get('dtypes') or {}).get('channel_positions', 'float64'))
-        if case['spec'].get('extra_npy'):
-            rep.count('optional source tables: ' + ','.join(sorted(case['spec']['extra_npy'])))
+        opt = sorted(n for n in (case['spec'].get('extra_npy') or {}) if n.split('.')[0] in (
+            'channel_labels', 'cluster_shanks', 'cluster_probes', 'drift', 'drift_depths'))
+        if opt:
+            rep.count('optional source tables: ' + ','.join(opt))
     rep.count('label:%r' % case.get('label', ''))
     if case.get('reexport'):
         rep.count('re-export over a stale output directory')
@@ -390,7 +392,7 @@ def gen(tier, rng):
                      'drift.um.npy': ('float64', [[0., 1.], [1., 0.], [2., 2.]])}
             if i % 18 == 4:
                 extra['cluster_probes.npy'] = ('int32', [0] * ncl_)
-            spec['extra_npy'] = extra
+            spec['extra_npy'] = dict(spec.get('extra_npy') or {}, **extra)
         if i % 8 == 6:
             _seconds_layout(spec, i)
         # labels incl. ones that occur inside ALF file names or look like extensions
@@ -399,7 +401,7 @@ def gen(tier, rng):
             # OUTSIDE the quantifier (tallied, never an alarm): a source that already holds an ALF cluster table,
             # a label with a path separator
             if i == 33:
-                spec['extra_npy'] = {'clusters.channels.npy': ('int64', [0] * _n_clusters(spec))}
+                spec['extra_npy'] = dict(spec.get('extra_npy') or {}, **{'clusters.channels.npy': ('int64', [0] * _n_clusters(spec))})
                 yield dict(p=PID, spec=spec, factor=1, label='', temp_wh=True, rs=i, ood='source with clusters.channels.npy')
             else:
                 yield dict(p=PID, spec=spec, factor=1, label='a/b', temp_wh=True, rs=i, ood='label a/b')
